@@ -448,6 +448,8 @@ pub fn c17_new_enumerated(idx: usize) -> NewCase {
         c.e2 = Some(e2_params(&mut rng, workers, c.entropy.len()));
     }
     c.cross_e1 = workers <= 1;
+    // every third tuple of the small multi-worker counts runs on the real binary under E3
+    c.e3 = (2..=16).contains(&workers) && idx % 3 == 0;
     c
 }
 
@@ -541,6 +543,7 @@ pub fn c17_new_seeded(rng: &mut Rng) -> NewCase {
         c.prefix = Some("0x".into());
     }
     c.e2 = Some(e2_params(rng, w, c.entropy.len()));
+    c.e3 = (2..=16).contains(&w) && c.threads.as_ref().and_then(|t| t.parse::<usize>().ok()).is_some() && rng.chance(1, 5);
     c.cross_e1 = c.prefix.is_none() || c.threads.as_ref().and_then(|t| t.parse::<usize>().ok()).map(|t| t <= 1).unwrap_or(true);
     if !c.cross_e1 {
         c.wplan.clear();
